@@ -377,6 +377,8 @@ def check(case, obs):
         pdir = os.path.join(workdir(), 'c02plots')
         shutil.rmtree(pdir, ignore_errors=True)
         os.makedirs(pdir)
+        from pbt.samples import fingerprint as _fp, fp_diff as _fpd
+        d_before = _fp(d)
         np.random.seed(case['np_seed'])
         with warnings.catch_warnings():
             warnings.simplefilter('ignore')
@@ -385,6 +387,7 @@ def check(case, obs):
                         plot_dir=pdir, plot_filename='beads')
         plt.close('all')
         obs.label('with_figures')
+        obs.claim('input_intact', not _fpd(d_before, _fp(d)), lambda: 'drawing the figures changed the bead sample: %r' % (_fpd(d_before, _fp(d)),))
 
         def same(a, b):
             a, b = np.asarray(a, dtype=float), np.asarray(b, dtype=float)
